@@ -301,90 +301,121 @@ func equivocatedCommitmentCases(w *world) []kase {
 	if w.sc.Proto != "cmp-keygen" || len(w.spec.IDs) < 3 {
 		return nil
 	}
+	type variant struct {
+		name   string
+		field  string // message field of round 3 that differs from the honest run: /C or /RID
+		change func(types.RID) types.RID
+		toAll  bool // shown to everybody (a malformed committed value) instead of to one recipient (an equivocation)
+	}
+	flip := func(r types.RID) types.RID { o := append(types.RID{}, r...); o[0] ^= 0x55; return o }
+	vs := []variant{{"second-commitment-with-another-chain-key-opened-consistently@one-recipient", "/C", flip, false}}
+	for _, f := range []string{"/RID", "/C"} {
+		vs = append(vs,
+			variant{"committed-value-31-bytes-opened-consistently", f, func(r types.RID) types.RID { return append(types.RID{}, r[:31]...) }, true},
+			variant{"committed-value-33-bytes-opened-consistently", f, func(r types.RID) types.RID { return append(append(types.RID{}, r...), 7) }, true},
+			variant{"committed-value-all-zero-opened-consistently", f, func(r types.RID) types.RID { return make(types.RID, len(r)) }, true})
+	}
 	var out []kase
 	d := w.spec.IDs[len(w.spec.IDs)-1]
-	for _, to := range w.spec.IDs {
-		if to == d {
-			continue
-		}
-		d, to := d, to
-		var com, decom, ck []byte
-		set := func(data []byte, fields map[string][]byte) []byte {
-			tree, err := faults.Decode(data)
-			if err != nil {
-				return data
+	for _, v := range vs {
+		for _, to := range w.spec.IDs {
+			if to == d {
+				continue
 			}
-			for f, v := range fields {
-				nt, ok := faults.Set(tree, f, v, false)
-				if !ok {
+			if v.toAll && to != w.spec.IDs[0] {
+				continue
+			}
+			d, to, v := d, to, v
+			var com, decom, val []byte
+			set := func(data []byte, fields map[string][]byte) []byte {
+				tree, err := faults.Decode(data)
+				if err != nil {
 					return data
 				}
-				tree = nt
+				for f, x := range fields {
+					nt, ok := faults.Set(tree, f, x, false)
+					if !ok {
+						return data
+					}
+					tree = nt
+				}
+				return faults.Encode(tree)
 			}
-			return faults.Encode(tree)
-		}
-		slot := faults.Slot{From: d, To: to, Round: 2, Broadcast: true}
-		name := "second-commitment-with-another-chain-key-opened-consistently@one-recipient"
-		f := faults.MessageFault(slot, name, "replace", func(m *protocol.Message) *protocol.Message {
-			if com != nil {
-				m.Data = set(m.Data, map[string][]byte{"/Commitment": com})
+			slot := faults.Slot{From: d, To: to, Round: 2, Broadcast: true}
+			if v.toAll {
+				slot.To = ""
 			}
-			return m
-		})
-		f.Deviator = d
-		f.Also = func(dl drv.Delivery) *protocol.Message {
-			if com == nil || !dl.M.Broadcast || int(dl.M.RoundNumber) != 3 || dl.To != to {
-				return nil
+			f := faults.MessageFault(slot, v.name, "replace", func(m *protocol.Message) *protocol.Message {
+				if com != nil {
+					m.Data = set(m.Data, map[string][]byte{"/Commitment": com})
+				}
+				return m
+			})
+			f.Deviator = d
+			f.Also = func(dl drv.Delivery) *protocol.Message {
+				if com == nil || !dl.M.Broadcast || int(dl.M.RoundNumber) != 3 || (!v.toAll && dl.To != to) {
+					return nil
+				}
+				m := drv.CloneMsg(dl.M)
+				m.Data = set(m.Data, map[string][]byte{v.field: val, "/Decommitment": decom})
+				return m
 			}
-			m := drv.CloneMsg(dl.M)
-			m.Data = set(m.Data, map[string][]byte{"/C": ck, "/Decommitment": decom})
-			return m
-		}
-		done := false
-		f.StateHook = func(h protocol.Handler) bool {
-			if done {
+			done := false
+			f.StateHook = func(h protocol.Handler) bool {
+				if done {
+					return true
+				}
+				cr, ok := faults.CurrentRound(h)
+				if !ok {
+					return false
+				}
+				hh, ok := cr.Interface().(interface {
+					HashForID(party.ID) *hash.Hash
+				})
+				if !ok {
+					return false
+				}
+				rv := cr.Elem()
+				at := func(field string) (reflect.Value, bool) {
+					fv := rv.FieldByName(field)
+					if !fv.IsValid() || fv.Kind() != reflect.Map {
+						return reflect.Value{}, false
+					}
+					x := fv.MapIndex(reflect.ValueOf(d))
+					return x, x.IsValid()
+				}
+				rid, ok1 := at("RIDs")
+				chain, ok2 := at("ChainKeys")
+				poly, ok3 := at("VSSPolynomials")
+				elg, ok4 := at("ElGamalPublic")
+				ped, ok5 := at("Pedersen")
+				sr := rv.FieldByName("SchnorrRand")
+				if !(ok1 && ok2 && ok3 && ok4 && ok5) || !sr.IsValid() {
+					return false
+				}
+				r1, c1 := rid.Interface().(types.RID), chain.Interface().(types.RID)
+				if v.field == "/C" {
+					c1 = v.change(c1)
+					val = []byte(c1)
+				} else {
+					r1 = v.change(r1)
+					val = []byte(r1)
+				}
+				pp := ped.Interface().(*pedersen.Parameters)
+				c, dc, err := hh.HashForID(d).Commit(r1, c1, poly.Interface(), sr.Interface().(*zksch.Randomness).Commitment(), elg.Interface(), pp.N(), pp.S(), pp.T())
+				if err != nil {
+					return false
+				}
+				com, decom = []byte(c), []byte(dc)
+				if v.toAll {
+					// the deviator's own copy of its round-2 broadcast enters its echo hash
+					faults.RewriteOwnBroadcast(h, 2, d, func(data []byte) []byte { return set(data, map[string][]byte{"/Commitment": com}) })
+				}
+				done = true
 				return true
 			}
-			cr, ok := faults.CurrentRound(h)
-			if !ok {
-				return false
-			}
-			hh, ok := cr.Interface().(interface {
-				HashForID(party.ID) *hash.Hash
-			})
-			if !ok {
-				return false
-			}
-			rv := cr.Elem()
-			at := func(field string) (reflect.Value, bool) {
-				fv := rv.FieldByName(field)
-				if !fv.IsValid() || fv.Kind() != reflect.Map {
-					return reflect.Value{}, false
-				}
-				x := fv.MapIndex(reflect.ValueOf(d))
-				return x, x.IsValid()
-			}
-			rid, ok1 := at("RIDs")
-			chain, ok2 := at("ChainKeys")
-			poly, ok3 := at("VSSPolynomials")
-			elg, ok4 := at("ElGamalPublic")
-			ped, ok5 := at("Pedersen")
-			sr := rv.FieldByName("SchnorrRand")
-			if !(ok1 && ok2 && ok3 && ok4 && ok5) || !sr.IsValid() {
-				return false
-			}
-			other := append(types.RID{}, chain.Interface().(types.RID)...)
-			other[0] ^= 0x55
-			pp := ped.Interface().(*pedersen.Parameters)
-			c, dc, err := hh.HashForID(d).Commit(rid.Interface(), other, poly.Interface(), sr.Interface().(*zksch.Randomness).Commitment(), elg.Interface(), pp.N(), pp.S(), pp.T())
-			if err != nil {
-				return false
-			}
-			com, decom, ck = []byte(c), []byte(dc), []byte(other)
-			done = true
-			return true
+			out = append(out, kase{Scenario: w.sc, Deviator: d, Slot: slot, Path: v.field, Op: v.name, Menu: "coordinated", fault: f})
 		}
-		out = append(out, kase{Scenario: w.sc, Deviator: d, Slot: slot, Path: "/Commitment", Op: name, Menu: "coordinated", fault: f})
 	}
 	return out
 }
